@@ -27,3 +27,4 @@ func TestC03(t *testing.T)        { RunProp(t, propC03) }
 func TestC03Enum(t *testing.T)    { RunEnum(t, propC03) }
 func TestC18(t *testing.T)        { RunProp(t, propC18) }
 func TestC20(t *testing.T)        { RunProp(t, propC20) }
+func TestC09Raw(t *testing.T)     { RunProp(t, propC09Raw) }
